@@ -19,7 +19,7 @@ use vcore::{compile, Check, Labels, Outcome, Project, Stats, Step, Tape, Tier, V
 pub struct C18;
 pub const CHECK: C18 = C18;
 pub fn plan(t: Tier) -> vcore::Plan {
-    vcore::Plan::new(t.pick(24_000, 600_000), 640)
+    vcore::Plan::new(t.pick(24_000, 900_000), 640)
 }
 
 // ---------------------------------------------------------------------------------------------------
